@@ -596,6 +596,22 @@ def scen_C09(ctx):
     # occupied neighbours, relocated when an offset field grows past 16 KiB; a 2 MiB value (4-byte length field)
     parallel(lambda i: cascade_case(ctx, 'C09', i), range(ctx.scale(12, 60)))
     parallel(lambda i: huge_case(ctx, 'C09', i, reopen=False), range(ctx.scale(1, 3)), workers=3)
+    if not ctx.quick:
+        # values of 4 .. 16 MiB + 1: too large for the list-based model; implementation against the ideal map only (L_api, values
+        # compared by length + checksum), in two processes
+        segs = [['db d0 db', 'map m0 d0 bytes m B8', 'put m0 61 z4194304x1', 'put m0 62 z16777216x2', 'put m0 63 z16777217x3', 'put m0 64 z5x4',
+                 'get m0 61', 'get m0 62', 'get m0 63', 'get m0 64', 'put m0 62 z16777215x5', 'get m0 62', 'del m0 61', 'len m0', 'closeall'],
+                ['db d0 db', 'map m0 d0 bytes m default', 'get m0 62', 'get m0 63', 'get m0 64', 'get m0 61', 'len m0', 'iter m0 keys', 'closeall']]
+        d = os.path.join(ctx.root, 'mib16')
+        il, ist = impl_only(segs, d, op_timeout=300)
+        ops = [l for seg in segs for l in seg]
+        bad = O.Ideal().check(ops, il)
+        ctx.evaluations += 1
+        ctx.scen_counts['values_up_to_16MiB_impl_vs_ideal_map'] = 1
+        if bad or ist != 'ok':
+            i, op, got, exp = bad[0] if bad else (len(il), ops[min(len(il), len(ops) - 1)], ist, 'ok')
+            ctx.violation('mib16', 'values of 4..16 MiB: op %d `%s` returned `%s`, the ideal map requires `%s`' % (i, op[:60], got[:100], exp[:100]), ops)
+        shutil.rmtree(d, ignore_errors=True)
 
 
 SCENARIOS['C09'] = scen_C09
